@@ -229,6 +229,23 @@ func c20(c *core.Ctx) {
 				"operation": "GetFrom into one destination, IPv4 then IPv6 message, repeated", "getter_index": typ, "allocs_per_run": a})
 		}
 	})
+	// an attribute-less message in between must not cost the warm attribute list
+	c.SectionSerial("empty-then-full-decode", 3, func(i int64, r *gen.Rand) {
+		setters := []stun.Setter{stun.BindingSuccess, stun.NewTransactionIDSetter(r.TID())}
+		for k := 0; k < 4+6*int(i); k++ {
+			setters = append(setters, stun.RawAttribute{Type: stun.AttrType(0x7f00 + k), Value: r.Bytes(12)})
+		}
+		full := append([]byte(nil), stun.MustBuild(setters...).Raw...)
+		empty := append([]byte(nil), stun.MustBuild(stun.BindingRequest, stun.NewTransactionIDSetter(r.TID())).Raw...)
+		m := new(stun.Message)
+		_ = stun.Decode(full, m)
+		c.Eval(1)
+		a := testing.AllocsPerRun(100, func() { _ = stun.Decode(empty, m); _ = stun.Decode(full, m) })
+		if a != 0 {
+			c.Violate("allocates", "alloc:empty-then-full-decode", map[string]interface{}{
+				"operation": "Decode of a header-only message, then Decode of the larger message the Message was warmed with", "attributes": 4 + 6*int(i), "allocs_per_run": a})
+		}
+	})
 	// a ForEach whose callback stops early must not cost the next decode its warm attribute list
 	c.SectionSerial("foreach-stop-then-decode", 4, func(i int64, r *gen.Rand) {
 		m := new(stun.Message)
